@@ -364,7 +364,10 @@ def em_op(world, op, rng=None, params=None):
                 arr["radius"][i] = v
                 model[i].radius = v
                 rec.hit("probe:mutation")
-                world.linked = (em, arr, [id(d) for d in em])  # remembered: in-place edits of members must reach it
+                # remembered: in-place edits of members must reach it.  The member objects themselves are kept (not
+                # their id()s: the id of a discarded droplet can be handed to a new one, which made this clause fire
+                # once in a blue moon on the unchanged tree)
+                world.linked = (em, arr, list(em))
     elif op == 10:  # merge members in place
         ok = len(model) >= 2
         i, j = (P.get("i", 0) % max(1, len(model)), P.get("j", 1) % max(1, len(model)))
@@ -387,7 +390,7 @@ def em_op(world, op, rng=None, params=None):
                           "content", f"in-place merge of members: got {got.tolist()}, expected volume {V} at {com.tolist()}")
                 mi.p[:] = got  # resynchronise (bitwise afterwards)
                 lk = getattr(world, "linked", None)
-                if lk is not None and lk[0] is em and i < len(lk[2]) and lk[2][i] == id(em[i]) and len(lk[1]) == len(em):
+                if lk is not None and lk[0] is em and i < len(lk[2]) and lk[2][i] is em[i] and len(lk[1]) == len(em):
                     # the member was linked into one array ("if entries in this array are modified, it will be reflected
                     # in the droplets"): that link has to survive an in-place merge of the member
                     v2 = float(got[dim]) * 0.5 + 0.125
